@@ -31,11 +31,14 @@ META["text"] += ' (R8, N) NonnegMean.py keeps no state between calls: outside __
 META["text"] += ' R1 also requires the composition: the history is min(1, 1/T) of that product with nothing applied on top. (R6 also) the constructor keeps its positional protocol (test, estim, bet, u, N, t, random_order).'
 META["text"] += " R7 also: the super-majority test is constructed with the assorter's own bound (the default eta is fixed from the construction-time u) and no tuning array inherits an integer sample's dtype."
 META["text"] += ' (R9, N, whole package) who-may-write on the attributes of a test object (constructor, and `u` at three confirmed sites).'
+META["text"] += ' (R10, N, frame condition on arguments) the history reported for an assertion is the one its own evaluation produced: nothing is appended to a list the caller (or a default) shares (aud.ARG_EFFECTS over the Assertion methods).'
 
 REL = nnm.REL
 
 
 def run(chk):
+    from .. import aud as _aud8
+    _aud8.argument_effects(chk, 'C01.R10', 'shangrla/core/Audit.py', 'the history reported for an assertion is the one its own evaluation produced: nothing is appended to a list the caller (or a default) shares', only=lambda q: q.startswith('Assertion.'))
     idx = chk.idx
     R.rule_ctor_signature(chk, "C01.R6")
     R.rule_stateless(chk, "C01.R8")  # first: its refutations stand even if a later rule cannot read the code
